@@ -225,6 +225,10 @@ class SSHLocalForwarder(SSHForwarder):
         if self._eof_received:
             self._peer.write_eof()
 
+        if not self._transport:
+            # The local connection was lost while the channel was being opened
+            self.close()
+
     def forward(self, *args: object) -> None:
         """Start a task to begin local forwarding"""
 
